@@ -18,6 +18,7 @@ from .ecdsa import (
     UnexpectedDER,
     VerifyingKey,
 )
+from .ecdsa.ecdh import InvalidCurveError, InvalidSharedSecretError
 from .pyaes import aes, blockfeeder
 
 
@@ -86,9 +87,12 @@ class PrivateEccKeyProxy(PrivateEccKeyBase):
 
     def compute_dh_secret(self, public_key: PublicEccKeyBase) -> bytes:
         ecdh = ECDH(curve=self.CURVE)
-        ecdh.load_private_key_der(self.private_key.to_der())  # type: ignore
-        ecdh.load_received_public_key_der(public_key.to_der_fmt())  # type: ignore
-        return ecdh.generate_sharedsecret_bytes()
+        try:
+            ecdh.load_private_key_der(self.private_key.to_der())  # type: ignore
+            ecdh.load_received_public_key_der(public_key.to_der_fmt())  # type: ignore
+            return ecdh.generate_sharedsecret_bytes()
+        except (InvalidCurveError, InvalidSharedSecretError) as exc:
+            raise ValueError("ECDH key agreement failed: {}".format(exc))
 
 
 @register_random_bytes
